@@ -150,6 +150,14 @@ def campaign(prop, part, target, tier, seed, seconds, corpus_dirs=(), dict_path=
             samples.append(open(os.path.join(corp, f), "rb").read()[:300].decode("latin-1"))
         except Exception:
             pass
+    large = 0
+    for sig, (a, err) in list(sigs.items()):
+        # DESIGN 3.7: a grid whose size the configuration asks for (checked by the code against an explicit bound of 2^40 elements)
+        # and which merely exceeds the fuzzer's allocation limit is "legitimately large", counted and not reported
+        if sig.startswith("asan:alloc-too-big") and re.search(r"colvar_grid<[^>]*>::setup\(|colvarbias_restraint_histogram::init\(", err):
+            # both places check the requested size against an explicit bound (2^40 grid elements, 1e9 histogram bins) first
+            large += 1
+            del sigs[sig]
     for sig, (a, err) in sigs.items():
         if sig in known:
             known_hits[sig] = known_hits.get(sig, 0) + 1
@@ -166,7 +174,7 @@ def campaign(prop, part, target, tier, seed, seconds, corpus_dirs=(), dict_path=
     shutil.rmtree(work, ignore_errors=True)
     return {"evals": execs + nreg, "nontrivial": ncorp, "classes": {}, "samples": samples,
             "strata": {"coverage_edges": cov, "corpus_inputs": ncorp, "crash_artifacts": len(arts_list),
-                       "distinct_signatures": len(sigs), "regression_inputs": nreg, "seconds": int(time.time() - t0)},
+                       "distinct_signatures": len(sigs), "legitimately_large_grid_allocations": large, "regression_inputs": nreg, "seconds": int(time.time() - t0)},
             "failures": failures, "known_hits": known_hits, "errors": []}
 
 
